@@ -1405,6 +1405,13 @@ def build_spec(g):
                          "self.monthly_peak_cl", "self.monthly_peak_hl", "self.monthly_peak_cl_duration", "self.monthly_peak_hl_duration",
                          "self.monthly_peak_cl_day", "self.monthly_peak_hl_day", "self.peak_retain_start", "self.peak_retain_end",
                          "self.step_func_load"])
+    # ---- from the hourly profile to the monthly arrays (ground_loads.py), both whole ----
+    g.func("ground_loads.py", "HybridLoad.split_heat_and_cool", coqname="split_heat_and_cool", rettype="tuple", ptypes={"raw_loads": lq})
+    arrs = ["monthly_cl", "monthly_hl", "monthly_peak_cl", "monthly_peak_hl", "monthly_avg_cl", "monthly_avg_hl", "monthly_peak_cl_day", "monthly_peak_hl_day"]
+    g.func("ground_loads.py", "HybridLoad.split_loads_by_month", coqname="split_loads_by_month", rettype="tuple",
+           returns=["self." + a for a in arrs],
+           ptypes={"self_" + k: lq for k in ["days_in_month", "hourly_rejection_loads", "hourly_extraction_loads"] + arrs},
+           extra_strict=["self." + k for k in ["days_in_month", "hourly_rejection_loads", "hourly_extraction_loads"] + arrs])
     # ---- the two-day window of each month's peak day (ground_loads.py), the whole method ----
     g.func("ground_loads.py", "HybridLoad.process_two_day_loads", coqname="process_two_day_loads", rettype="tuple",
            returns=["self.two_day_hourly_peak_cl_loads", "self.two_day_hourly_peak_hl_loads"],
